@@ -137,7 +137,7 @@ def handle (line : String) : String :=
     | some k => runDoerRequest k Generated.filterWrapPre Generated.filterWrapPost rest
     | none => "bad-op"
   | "syncdest" :: rest => runSyncDestRequest rest
-  | "synctrees" :: rest => runSyncTreesRequest rest
+  | "synctrees" :: rest => runSyncTreesRequest Generated.filterWrapPre Generated.filterWrapPost rest
   | ["linktext", b] =>
     match unxBytes b with
     | some bytes => s!"read={(readLinkB bytes).render} written=x{hexOfBytes (writeLinkB '/' (readLinkB bytes))}"
